@@ -2061,7 +2061,13 @@ event_base_loop(struct event_base *base, int flags)
 
 		/* Invoke prepare watchers before polling for events */
 		prepare_info.timeout = tv_p;
-		TAILQ_FOREACH(watcher, &base->watchers[EVWATCH_PREPARE], next) {
+		for (watcher = TAILQ_FIRST(&base->watchers[EVWATCH_PREPARE]);
+		    watcher != NULL;
+		    watcher = base->watcher_next[EVWATCH_PREPARE]) {
+			/* The callback may free this or any other watcher;
+			 * evwatch_free() keeps watcher_next valid. */
+			base->watcher_next[EVWATCH_PREPARE] =
+			    TAILQ_NEXT(watcher, next);
 			EVBASE_RELEASE_LOCK(base, th_base_lock);
 			(*watcher->callback.prepare)(watcher, &prepare_info, watcher->arg);
 			EVBASE_ACQUIRE_LOCK(base, th_base_lock);
@@ -2082,7 +2088,11 @@ event_base_loop(struct event_base *base, int flags)
 
 		/* Invoke check watchers after polling for events, and before
 		 * processing them */
-		TAILQ_FOREACH(watcher, &base->watchers[EVWATCH_CHECK], next) {
+		for (watcher = TAILQ_FIRST(&base->watchers[EVWATCH_CHECK]);
+		    watcher != NULL;
+		    watcher = base->watcher_next[EVWATCH_CHECK]) {
+			base->watcher_next[EVWATCH_CHECK] =
+			    TAILQ_NEXT(watcher, next);
 			EVBASE_RELEASE_LOCK(base, th_base_lock);
 			(*watcher->callback.check)(watcher, &check_info, watcher->arg);
 			EVBASE_ACQUIRE_LOCK(base, th_base_lock);
